@@ -758,6 +758,14 @@ func rewriteFile(l *loader, pi *pkgInfo, f *ast.File) {
 					x.Fun = simSel("Now")
 				case isPkgSel(info, x.Fun, "time", "Since"):
 					x.Fun = simSel("Since")
+				case isPkgSel(info, x.Fun, "os", "Getpid"):
+					x.Fun = simSel("Getpid")
+				case isPkgSel(info, x.Fun, "os", "Getppid"):
+					x.Fun = simSel("Getppid")
+				case isPkgSel(info, x.Fun, "crypto/rand", "Read"):
+					x.Fun = simSel("CryptoRead")
+				case isPkgSel(info, x.Fun, "crypto/rand", "Text"):
+					x.Fun = simSel("CryptoText")
 				case isPkgFunc(info, x.Fun, "math/rand"), isPkgFunc(info, x.Fun, "math/rand/v2"):
 					// the process-wide generator is seeded by the runtime: make it the simulator's
 					sel := x.Fun.(*ast.SelectorExpr)
